@@ -466,7 +466,9 @@ class DefinitionsArm(Arm):
             local = sorted(draw(st.sets(st.sampled_from(nts), max_size=len(nts)))) if draw(st.booleans()) else None
             return {"spec": spec, "plan": plan, "same_names": draw(st.sampled_from([False, False, True])),
                     "dict_decl": draw(st.booleans()), "split": local,
-                    "rewrite_style": draw(st.sampled_from([None, None, "plain", "dot_slash", "dotted_dir", "dotted"]))}
+                    "rewrite_style": draw(st.sampled_from([None, None, "plain", "dot_slash", "dotted_dir", "dotted"])),
+                    # edge weights of the Python definition given as numpy scalars (they must survive to_yaml)
+                    "np_weights": draw(st.sampled_from([False, False, False, True]))}
         return case()
 
     def valid(self, case):
@@ -510,10 +512,12 @@ class DefinitionsArm(Arm):
                 lab.append("edge_template_shared")
             if any(e.get("ev") for e in spec["edges"]):
                 lab.append("edge_attribute_values")
+        if case.get("np_weights") and spec["edges"]:
+            lab.append("numpy_weights")
         res.labels = sorted(set(lab))
         res.nontrivial = bool(lab)
         def build_P():
-            P_ = build_circuit(spec, name="net")
+            P_ = build_circuit(dict(spec, np_weights=True) if case.get("np_weights") else spec, name="net")
             if case.get("same_names"):
                 # different NodeTemplate objects may carry the same template name
                 def ren(c):
